@@ -655,7 +655,44 @@ func (t *State) verifyTxRWSets(tx *pb.Transaction) (bool, error) {
 		return false, fmt.Errorf("write set not equal")
 	}
 
+	// the token transfers made by the contracts must be carried out by the tx itself:
+	// their inputs are exempt from signature checks, so their outputs have to be the tx's outputs
+	utxoRWSet := sandBox.UTXORWSet()
+	if !isContractUtxoEffective(utxoRWSet.Rset, utxoRWSet.WSet, tx) {
+		return false, fmt.Errorf("contract utxo not effective")
+	}
+
 	return true, nil
+}
+
+// isContractUtxoEffective check if the utxo inputs / outputs produced by contracts are part of the tx
+func isContractUtxoEffective(contractTxInputs []*protos.TxInput, contractTxOutputs []*protos.TxOutput, tx *pb.Transaction) bool {
+	if len(contractTxInputs) > len(tx.GetTxInputs()) || len(contractTxOutputs) > len(tx.GetTxOutputs()) {
+		return false
+	}
+
+	txInputsMap := map[string]bool{}
+	for _, v := range tx.GetTxInputs() {
+		txInputsMap[utxo.GenUtxoKey(v.GetFromAddr(), v.GetRefTxid(), v.GetRefOffset())] = true
+	}
+	for _, v := range contractTxInputs {
+		if !txInputsMap[utxo.GenUtxoKey(v.GetFromAddr(), v.GetRefTxid(), v.GetRefOffset())] {
+			return false
+		}
+	}
+
+	markedOutput := map[string]int{}
+	for _, v := range tx.GetTxOutputs() {
+		markedOutput[string(v.GetToAddr())+"/"+new(big.Int).SetBytes(v.GetAmount()).String()]++
+	}
+	for _, v := range contractTxOutputs {
+		key := string(v.GetToAddr()) + "/" + new(big.Int).SetBytes(v.GetAmount()).String()
+		if markedOutput[key] < 1 {
+			return false
+		}
+		markedOutput[key]--
+	}
+	return true
 }
 
 // verifyAutoTxRWSets verify auto tx read sets and write sets
